@@ -38,6 +38,10 @@ pub struct Project {
     pub config: ConfigModel,
     /// extra files dropped into the tree (never matched by a glob), path relative to root
     pub extra_files: Vec<(String, String)>,
+    /// "" / "sdl": GraphQL SDL files; "introspection": one `.json` file holding the result of
+    /// the introspection query (`{"__schema": ..}`, optionally below `data`)
+    #[serde(default)]
+    pub schema_format: String,
 }
 
 #[derive(Clone, Debug, Default)]
@@ -54,6 +58,8 @@ pub struct ProjectOpts {
     pub max_files: usize,
     pub closed_imports: bool,
     pub cover_fragments: bool,
+    /// x/100 of the projects describe their schema by an introspection JSON file
+    pub introspection_pct: u32,
 }
 
 pub const SANDBOX: &str = "/nvw";
@@ -68,6 +74,18 @@ impl Project {
     }
     pub fn config_path(&self) -> String {
         self.abs(&self.config.file_name)
+    }
+    pub fn introspection(&self) -> bool {
+        self.schema_format == "introspection"
+    }
+    /// text of schema input i
+    pub fn schema_text(&self, i: usize) -> String {
+        if self.introspection() {
+            // style knob: compact or pretty-printed, from the path-independent model size
+            wgen::render_introspection(&self.schema, self.schema.types.len() % 2 == 0)
+        } else {
+            wgen::render_schema_file(&self.schema, i)
+        }
     }
     pub fn schema_abs(&self, i: usize) -> String {
         self.abs(&self.schema_paths[i])
@@ -100,7 +118,7 @@ impl Project {
         let mut v = Vec::new();
         v.push((self.config_path(), self.config_text()));
         for i in 0..self.schema_paths.len() {
-            v.push((self.schema_abs(i), wgen::render_schema_file(&self.schema, i)));
+            v.push((self.schema_abs(i), self.schema_text(i)));
         }
         for (i, f) in self.ops.iter().enumerate() {
             v.push((self.op_abs(i), wgen::render_op_file(f)));
@@ -221,7 +239,12 @@ pub fn gen_project(rng: &mut Rng, o: &ProjectOpts) -> Project {
     }
     let schema_dir = *r_lay.pick(&["schema", "graphql/schema", "src-schema", "defs/a", "defs/a/b"]);
     let schema_names = ["base", "types", "extra"];
-    let schema_paths: Vec<String> = (0..schema.n_files).map(|i| format!("{schema_dir}/{}.graphql", schema_names[i])).collect();
+    let introspection = o.introspection_pct > 0 && (rng.fork("schema_format").below(100) as u32) < o.introspection_pct;
+    let schema_paths: Vec<String> = if introspection {
+        vec![format!("{schema_dir}/{}.json", *rng.fork("schema_format_name").pick(&["schema", "introspection", "api.schema"]))]
+    } else {
+        (0..schema.n_files).map(|i| format!("{schema_dir}/{}.graphql", schema_names[i])).collect()
+    };
 
     let ops = wgen::gen_ops(
         &mut r_ops,
@@ -264,9 +287,10 @@ pub fn gen_project(rng: &mut Rng, o: &ProjectOpts) -> Project {
         root.clone()
     };
     let dot = if r_cfg.chance(1, 2) { "./" } else { "" };
+    let sext = if introspection { "json" } else { "graphql" };
     let schema_globs: Vec<String> = match r_cfg.below(3) {
-        0 => vec![format!("{dot}{schema_dir}/*.graphql")],
-        1 => vec![format!("{dot}{schema_dir}/**/*.graphql")],
+        0 => vec![format!("{dot}{schema_dir}/*.{sext}")],
+        1 => vec![format!("{dot}{schema_dir}/**/*.{sext}")],
         _ => schema_paths.iter().map(|p| format!("{dot}{p}")).collect(),
     };
     let mut documents_globs: Vec<String> = match r_cfg.below(3) {
@@ -380,6 +404,8 @@ pub fn gen_project(rng: &mut Rng, o: &ProjectOpts) -> Project {
         g.insert("export".into(), Value::Object(export));
     }
     let plugins = if r_cfg.chance(1, 5) { vec!["nitrogql:model-plugin".to_string()] } else { vec![] };
+    // (plugins extend an SDL schema; an introspection result cannot carry their directives)
+    let plugins = if introspection { vec![] } else { plugins };
 
     let mut extra_files = Vec::new();
     if r_lay.chance(1, 3) {
@@ -407,5 +433,6 @@ pub fn gen_project(rng: &mut Rng, o: &ProjectOpts) -> Project {
             plugins,
         },
         extra_files,
+        schema_format: if introspection { "introspection".into() } else { String::new() },
     }
 }
